@@ -865,7 +865,6 @@ class GCodeBuilder(GCodeCore):
         # Track parameters and write the statement
 
         self._update_axes(target_axes, params)
-        self._track_move_params(params)
         self.write(statement)
 
     @typechecked
@@ -956,7 +955,6 @@ class GCodeBuilder(GCodeCore):
             for hook in self._hooks:
                 params = hook(origin, target, params, self.state)
 
-        self._track_move_params(params)
         return super()._prepare_move(point, params, comment)
 
     def _prepare_rapid(self,
@@ -975,7 +973,6 @@ class GCodeBuilder(GCodeCore):
                 - (ParamsDict) The updated movement parameters
         """
 
-        self._track_move_params(params)
         return super()._prepare_rapid(point, params, comment)
 
     def _track_move_params(self, params: ParamsDict) -> None:
@@ -994,6 +991,25 @@ class GCodeBuilder(GCodeCore):
         if params.get("S") is not None:
             self.state._set_tool_power(params.get("S"))
 
+    def _validate_move(self, axes: Point, params: ParamsDict) -> None:
+        """Reject a movement before any of its effects is committed.
+
+        Args:
+            axes: The new position of all axes
+            params: The movement parameters used in the command
+
+        Raises:
+            ValueError: If the position or a parameter is not allowed
+        """
+
+        self.state._user_bounds.validate("axes", axes)
+
+        if params.get("F") is not None:
+            self.state._validate_feed_rate(params.get("F"))
+
+        if params.get("S") is not None:
+            self.state._validate_tool_power(params.get("S"))
+
     def _update_axes(self, axes: Point, params: ParamsDict) -> None:
         """Update the internal state after a movement.
 
@@ -1005,9 +1021,11 @@ class GCodeBuilder(GCodeCore):
             params: The movement parameters used in the command
         """
 
+        self._validate_move(axes, params)
         super()._update_axes(axes, params)
         self.state._set_params(self._current_params)
         self.state._set_axes(self._current_axes)
+        self._track_move_params(params)
 
     def _get_statement(self,
         value: BaseEnum, params: dict | None = None, comment: str | None = None)-> str:
